@@ -212,10 +212,22 @@ func (s *SoftwrapScanner) Scan(ctx vxfw.DrawContext) bool {
 		// This word is longer than the line. We have to break on
 		// graphemes
 		if wordLen > s.width {
+			if w > 0 {
+				// Finish this line first. The word is broken up
+				// from the start of a line, so that no more of it
+				// is broken than necessary
+				return true
+			}
 			s.rest = []byte{}
 			// Append characters to token until we reach the end
+			full := false
 			for _, char := range wordChars {
-				if w >= s.width {
+				if w >= s.width || (w > 0 && w+uint16(char.Width) > s.width) {
+					// This character and all following ones go
+					// to the next line
+					full = true
+				}
+				if full {
 					// Append the rest to rest
 					s.rest = append(s.rest, []byte(char.Grapheme)...)
 					continue
@@ -227,6 +239,9 @@ func (s *SoftwrapScanner) Scan(ctx vxfw.DrawContext) bool {
 			s.rest = append(s.rest, trSpace...)
 			// Append the rest...
 			s.rest = append(s.rest, rest...)
+			// We start over with what is left, the state of the
+			// segmentation doesn't belong to it
+			s.state = -1
 			return true
 		}
 
